@@ -339,7 +339,8 @@ func c16GenCase(c *Ctx, stream string, i int, malformed bool) *c16Case {
 	r := c.Rng(stream, i)
 	val := Pick(r, []string{"CHF", "CHF", "CHF", "USD", "EUR", "CH2", "Ünit", "X9Y", "chf"})
 	o := JGenOpts{MaxAccounts: r.Range(2, 8), MaxDays: r.Range(1, 9), Unicode: true, BaseDay: 737000 + r.Intn(1500),
-		SpanDays: Pick(r, []int{0, 1, 5, 12, 40, 400}), ManyDecimals: r.Chance(1, 2), Prices: true, Valuation: val, ChainPrices: r.Chance(1, 3)}
+		SpanDays: Pick(r, []int{0, 1, 5, 12, 40, 400}), ManyDecimals: r.Chance(1, 2), Prices: true, Valuation: val, ChainPrices: r.Chance(1, 3),
+		ManyPricesPerDay: r.Chance(1, 4), DupPrices: r.Chance(1, 4)}
 	if malformed {
 		o.Mutate = r.Chance(1, 2)
 		o.DropPrices = r.Chance(1, 3)
